@@ -11,6 +11,7 @@ import sys
 from collections import defaultdict, deque
 
 TOP = ("top",)
+DEPTH = 40      # default expansion budget of origin trees
 
 # --------------------------------------------------------------------------
 # helpers on raw JSON encodings
@@ -436,7 +437,7 @@ class Body:
         return self._defs
 
     # ---------------- origin trees
-    def origin(self, op, depth=14):
+    def origin(self, op, depth=DEPTH):
         """origin tree of an operand."""
         k = op[0]
         if k == "k":
@@ -465,7 +466,7 @@ class Body:
             return ("lit", k["v"], k.get("ty"))
         return ("lit", None, k.get("ty"))
 
-    def place_origin(self, pl, depth=14):
+    def place_origin(self, pl, depth=DEPTH):
         l, proj = pl[0], pl[1]
         base = self.local_origin(l, depth)
         return self._apply_proj(base, proj, l)
@@ -504,8 +505,10 @@ class Body:
                 cur = ("proj?", cur)
         return cur
 
-    def local_origin(self, l, depth=14, _seen=None):
-        if l in self._omemo:
+    def local_origin(self, l, depth=DEPTH, _seen=None):
+        # the cache is only consulted (and filled) by top-level, full-depth queries: a nested expansion that picked up
+        # a cached full-depth subtree would make trees depend on the order of earlier queries
+        if not _seen and depth >= DEPTH and l in self._omemo:
             return self._omemo[l]
         if _seen is None:
             _seen = frozenset()
@@ -554,7 +557,8 @@ class Body:
                 if a not in uniq:
                     uniq.append(a)
             res = uniq[0] if len(uniq) == 1 else ("phi", tuple(uniq))
-        if not _seen:
+        if not _seen and depth >= DEPTH:
+            # only full-depth results are cached: a tree computed under a smaller budget may be truncated
             self._omemo[l] = res
         return res
 
